@@ -191,6 +191,7 @@ fn rand_vals(rng: &mut Rng, n: usize, base: i32) -> Vec<i32> {
 
 fn case(st: &mut Stream, c: &Case, kind: &str) {
     let l = line(c);
+    mark(0, &l);
     let r = run_case(c);
     // non-trivial: anything the three doc examples (2 slots, start 0, empty or full pre-fill, 4-frame source,
     // next only or fully drained batches only) never do
